@@ -30,10 +30,15 @@ int imports_obj_verify(const uint8_t *buffer, int file_size)
 
   const uint8_t e_ident[] = { 0x7f, 0x45, 0x4c, 0x46, };
 
+  if (file_size < (int)sizeof(ElfHeader32)) { return -1; }
+
   for (i = 0; i < 4; i++)
   {
     if (buffer[i] != e_ident[i]) { return -1; }
   }
+
+  // Only 32 bit little endian objects can be read (get_int32_le() etc).
+  if (buffer[4] != 1 || buffer[5] != 1) { return -1; }
 
   return 0;
 }
